@@ -83,6 +83,11 @@ func main() {
 		rules.DebugFieldFlow(c, os.Args[2], os.Args[3:])
 		return
 	}
+	if os.Args[1] == "debug-shared-handlers" {
+		c := core.NewCtx("DBG", "quick")
+		rules.DebugSharedHandlers(c)
+		return
+	}
 	if os.Args[1] == "debug-layout" {
 		c := core.NewCtx("DBG", "quick")
 		rules.DebugLayout(c)
